@@ -9,13 +9,15 @@ from pyvc import solve
 def run(modname, only=None, timeout=20):
     mod = importlib.import_module(modname)
     cons = mod.registry()
-    reg = {c.fn: c for c in cons}
+    reg = {c.fn: c for c in cons if c.deductive}
     # several contracts may target the same function (different argument types): dispatch list
     obls = []
     for lem in getattr(mod, 'LEMMAS', []):
         obls += lem.obligations()
     for c in cons:
         if only and only not in c.target and only not in type(c).__name__:
+            continue
+        if not c.properties or not c.deductive:
             continue
         t0 = time.time()
         rep = verify_contract(c, reg)
